@@ -22,7 +22,8 @@ RULE = ("pairs (L, R) of maps / lists / Arrays-of-Hashes / sets / scalars / empt
         "at equal keys (R derived from L by random edits, or unrelated) x hash {deep,left,right} x array {all,left,right,"
         "unique} x aoh {all,deep,left,right,unique} x set {left,right,unique} policies (thorough: each pair under all 180 "
         "combinations; quick: a covering sample of 24), given as defaults in args, as [defaults] of an INI file, or "
-        "overridden per path through rules= / keys=. Non-trivial = the reference merge decides the case (result or "
+        "overridden per path through rules= / keys= (top-level and nested paths; also a rule naming one of two equal "
+        "children that sit under the same key in different parents). Non-trivial = the reference merge decides the case (result or "
         "documented error); distinct by (L, R, policy mix, delivery)")
 ASSUMPTIONS = ["order of keys newly added by the right-hand document is not specified: maps are compared as mappings plus "
                "the relative order of the left-hand keys",
@@ -33,7 +34,7 @@ REACH = [("yamlpath/merger/merger.py", "_merge_dicts,_merge_lists,_merge_simple_
          ("yamlpath/merger/merger.py", "_insert_dict,_insert_list,_insert_set,_insert_scalar,merge_with", "Merger._insert_* / merge_with"),
          ("yamlpath/merger/mergerconfig.py", "hash_merge_mode,array_merge_mode,aoh_merge_mode,set_merge_mode,aoh_merge_key,_prepare_user_rules", "MergerConfig modes")]
 SIZES = {"quick": 200000, "thorough": 4000000}
-REQUIRED_COUNTERS = ["model_decided", "documented_error_cases", "rules_cases", "ini_cases"]
+REQUIRED_COUNTERS = ["model_decided", "documented_error_cases", "rules_cases", "ini_cases", "twin_rule_cases", "nested_rule_cases"]
 HASHES, ARRAYS, AOH, SETS = ["deep", "left", "right"], ["all", "left", "right", "unique"], \
     ["all", "deep", "left", "right", "unique"], ["left", "right", "unique"]
 ALL_COMBOS = list(itertools.product(HASHES, ARRAYS, AOH, SETS))
@@ -238,6 +239,28 @@ SEEDS = [("{a: 1, b: [1, 2]}", "{a: 2, b: [2, 3]}", ("deep", "all", "left", "uni
          ("{l: [{id: 1, v: 1}, {id: 2, v: 2}]}", "{l: [{id: 2, v: 9}, {id: 3, v: 3}]}", ("deep", "all", "deep", "unique"))]
 
 
+def nested_paths(t, path=""):
+    out = []
+    if t[0] == "map":
+        for k, v in t[1]:
+            out.append((path + "/" + k, v))
+            out += nested_paths(v, path + "/" + k)
+    return out
+
+
+def twin_pair(rng):
+    """Two sibling subtrees holding an equal child under the same key, inside parents that differ: a per-path rule
+    names only one of the two children."""
+    x = gen_tree(rng, 1, rng.choice(["map", "seq", "aoh", "set"]))
+    xl = derive(rng, x, 1) if rng.random() < 0.8 else x
+    if xl[0] != x[0]:
+        xl = x
+    ka, kb = rng.sample(["a", "b", "c"], 2)
+    lt = ("map", [(ka, ("map", [("k", xl), ("d", ("s", "1"))])), (kb, ("map", [("k", xl), ("d", ("s", "2"))]))])
+    rt = ("map", [(ka, ("map", [("k", x), ("d", ("s", "1"))])), (kb, ("map", [("k", x), ("d", ("s", "3"))]))])
+    return lt, rt, "/%s/k" % rng.choice([ka, kb])
+
+
 def run_shard(ctx):
     rng = ctx.rng
     if ctx.shard == 0:
@@ -247,6 +270,16 @@ def run_shard(ctx):
     want = SIZES[ctx.tier] // ctx.nshards
     n = 0
     while ctx.evaluations < want:
+        if rng.random() < 0.08:
+            lt, rt, tpath = twin_pair(rng)
+            ltext, rtext = gd.render(lt), gd.render(rt)
+            val = rt[1][0][1][1][0][1]
+            modes = HASHES if val[0] == "map" else SETS if val[0] == "set" else AOH if (val[1] and val[1][0][0] == "map") else ARRAYS
+            for combo in covering_sample(rng, 8):
+                for mode in modes:
+                    ctx.count("twin_rule_cases")
+                    run_case(ctx, ltext, rtext, combo, "args", {tpath: mode}, None)
+            continue
         lt = gen_tree(rng, 0, rng.choice(["map", "map", "map", "seq", "aoh", "set", "scalar"]))
         rt = derive(rng, lt) if rng.random() < 0.75 else gen_tree(rng, 0, rng.choice(["map", "seq", "aoh", "set", "scalar"]))
         ltext, rtext = gd.render(lt), gd.render(rt)
@@ -256,9 +289,10 @@ def run_shard(ctx):
             if x < 0.12:
                 run_case(ctx, ltext, rtext, combo, "ini")
             elif x < 0.3 and rt[0] == "map" and rt[1]:
-                # per-path override for one top-level key of R
-                key, val = rng.choice(rt[1])
-                path = "/" + key
+                # per-path override for one node of R reached through mapping keys (any depth)
+                path, val = rng.choice(nested_paths(rt))
+                if path.count("/") > 1:
+                    ctx.count("nested_rule_cases")
                 rules, keys = {}, {}
                 if val[0] == "map":
                     rules[path] = rng.choice(HASHES)
